@@ -100,7 +100,7 @@ fn model_sig_line(s: &Signature, basis: &[u8]) -> String {
         .map(|(i, b)| {
             let start = i * s.block_size;
             let end = (start + s.block_size).min(basis.len());
-            let strong_ok = start <= end && end <= basis.len() && b.strong_hash == StrongHash::compute(&basis[start..end]);
+            let strong_ok = start <= end && end <= basis.len() && b.strong_hash.as_bytes() == StrongHash::compute(&basis[start..end]).as_bytes();
             format!("{}:{}:{}", b.index, b.weak_hash, if strong_ok { (end - start) as i64 } else { -1 })
         })
         .collect();
@@ -279,7 +279,7 @@ pub fn run_pair(w: &mut Out, p: &Pair, rtm: &tokio::runtime::Runtime, cli: Optio
     }
     // well-formedness (C01)
     let sumlen: u64 = d_sync.ops.iter().map(DeltaOp::output_len).sum();
-    if d_sync.source_size != p.src.len() as u64 || d_sync.checksum != StrongHash::compute(&p.src) || sumlen != p.src.len() as u64 {
+    if d_sync.source_size != p.src.len() as u64 || d_sync.checksum.as_bytes() != StrongHash::compute(&p.src).as_bytes() || sumlen != p.src.len() as u64 {
         w.fail(l, "delta-header", &format!("declared size/checksum/length sum are not those of the source [{key}]"));
     }
     for op in &d_sync.ops {
@@ -578,7 +578,7 @@ query = `patch` with full ops; answer = verdict + length and FNV hash of the byt
             d.checksum = StrongHash::compute(&out0);
         }
         known.push(out0.clone());
-        let cs_tok = known.iter().find(|k| StrongHash::compute(k) == d.checksum).map_or("!".to_string(), |k| hex(k));
+        let cs_tok = known.iter().find(|k| StrongHash::compute(k).as_bytes() == d.checksum.as_bytes()).map_or("!".to_string(), |k| hex(k));
         for k in &kinds { w.count(&format!("corruption/{k}")); }
         let verify = !rng.coin(1, 10);
         w.pre(&delta_query(verify, &basis2, &d, &cs_tok));
@@ -592,7 +592,7 @@ query = `patch` with full ops; answer = verdict + length and FNV hash of the byt
         match &got {
             Err(()) => w.fail(l, "patch-panic", &format!("sync patch panicked (case {i}, corruptions {kinds:?})")),
             Ok((r, out)) => {
-                if r.is_ok() && verify && StrongHash::compute(out) != d.checksum {
+                if r.is_ok() && verify && StrongHash::compute(out).as_bytes() != d.checksum.as_bytes() {   // bytes, not the type's own `==`: the oracle must not trust the code under test
                     w.fail(l, "success-on-wrong-bytes", &format!("sync patch reported success but blake3(output) != delta.checksum (case {i}, corruptions {kinds:?})"));
                 }
             }
@@ -612,7 +612,7 @@ query = `patch` with full ops; answer = verdict + length and FNV hash of the byt
             let ga = ga.map_err(|_| ());
             match (&ga, &got) {
                 (Ok((ra, oa)), Ok((rs, os))) => {
-                    if ra.is_ok() && StrongHash::compute(oa) != d.checksum {
+                    if ra.is_ok() && StrongHash::compute(oa).as_bytes() != d.checksum.as_bytes() {
                         w.fail(l, "success-on-wrong-bytes", &format!("async patch reported success on wrong bytes (case {i}, corruptions {kinds:?})"));
                     }
                     if res_kind(ra) != res_kind(rs) || oa != os {
@@ -637,7 +637,7 @@ query = `patch` with full ops; answer = verdict + length and FNV hash of the byt
                     None => w.fail(l, "cli-patch-signal", &format!("copia patch died by signal: {err} (case {i}, corruptions {kinds:?})")),
                     Some(0) => {
                         let o = std::fs::read(f("o")).unwrap_or_default();
-                        if StrongHash::compute(&o) != d.checksum {
+                        if StrongHash::compute(&o).as_bytes() != d.checksum.as_bytes() {
                             w.fail(l, "cli-success-on-wrong-bytes", &format!("copia patch exit 0 but output does not hash to the delta checksum (case {i}, corruptions {kinds:?})"));
                         }
                     }
